@@ -113,7 +113,7 @@ def run_property(prop, pc, kf, tier, seed, sc, t0):
         # a function whose injected proof hints were lost gives no Verus verdict when it fails: undecided, handed to Kani
         sem = [f for f in sem_all if f['function'] not in degraded]
         for m in bv['metas']:
-            if m.get('lost_hints') and (prop in m['props'] or (prop == 'C11' and m.get('contract_file'))):
+            if m.get('not_checked') and (prop in m['props'] or (prop == 'C11' and m.get('contract_file'))):
                 undecided.append('%s::%s not verified this run: proof hints lost (%s)' % (bv['unit'], m['function'], '; '.join(m['lost_hints'][:3])))
         for f in sem_all:
             if f['function'] in degraded:
@@ -165,7 +165,7 @@ def run_property(prop, pc, kf, tier, seed, sc, t0):
         # thorough: every harness of the property; quick: as triage of a Verus failure (fast harnesses) or, when part of
         # the property got NO Verus verdict (anchor lost, unsupported construct, lost proof hints), as the fallback that
         # can still produce a sound verdict: a counterexample on the real code
-        kani_results = K.run_for_property(prop, sc.dir, include_slow=(tier == 'thorough' or (bool(tool_problems) and not violations)))
+        kani_results = K.run_for_property(prop, sc.dir, include_slow=(tier == 'thorough' or (bool(tool_problems) and not violations)), lazy_slow=(tier != 'thorough'))
     kani_failed = [k for k in kani_results if k['status'] == 'failed' and not known(kf, prop, {'function': k['name'], 'clause': k['failed_checks'], 'site': ''})]
     if tool_problems and not violations and not kani_failed:
         for t in tool_problems:
@@ -218,7 +218,7 @@ def run_property(prop, pc, kf, tier, seed, sc, t0):
     n_dis = sum(1 for o in obligations if o['discharged'])
     write_evidence(prop, pc, tier, seed, results, obligations, n_dis, functions_under_contract, smt_ms, vac, violations, known_hits, time.time() - t0, kani_results, kani_viol)
     print('property=%s tier=%s obligations=%d discharged=%d known-findings=%d violations=%d wall=%.1fs' % (
-        prop, tier, n_ob, n_dis, len(known_hits), len(violations), time.time() - t0))
+        prop, tier, n_ob, n_dis, len(known_hits), len(violations) + kani_viol, time.time() - t0))
     return rc
 
 
